@@ -88,7 +88,7 @@ Definition Blocks_front_matter_composition_full_statement : Prop :=
     parse_blocks (mkBO (bo_table o) (bo_footnotes o) (bo_description_lists o) (bo_multiline_block_quotes o) (bo_alerts o)
                        (bo_spoiler o) (bo_greentext o) (bo_ignore_setext o) None (bo_default_info_string o) (bo_fold o)) rest = Ok r0 ->
     exists r fmnode, parse_blocks o (fm ++ rest) = Ok r /\
-      bkids (br_root r) = fmnode :: map (shift_lines (count_lf fm)) (bkids (br_root r0)).
+      bkids (br_root r) = fmnode :: map (shift_lines (count_line_endings fm)) (bkids (br_root r0)).
 
 (* ---- 1. the cursor (the mechanism C01 names) *)
 Theorem Blocks_cursor_advance : forall c line count columns,
